@@ -984,11 +984,16 @@ def check_olc(pid, tier, seed):
     shutil.rmtree(outdir, ignore_errors=True)
     os.makedirs(outdir)
     if tier == "quick":
-        # half of the workers: minimal pairs (2 threads x 1 operation), every schedule with <= 2 preemptions;
+        # 6 of 16 workers: minimal pairs (2 threads x 1 operation), every schedule with <= 2 preemptions;
+        # 2 of 16: "nested" minimal pairs (focus node vs. its direct parent, both at a size-class boundary);
         # the others: richer programs, every schedule with <= 1 preemption, plus PCT / random walks
         plans = []
         for i in range(NCPU):
-            if i % 2 == 0:
+            if i % 8 == 4:
+                # minimal pairs in which one thread restructures the focus node and the other its direct parent
+                plans.append(["--seed", str(seed * 1000 + i), "--shape", "nested", "--programs", "20", "--dfs-p", "2",
+                              "--dfs-cap", "12000", "--pct", "20", "--rand", "20"])
+            elif i % 2 == 0:
                 plans.append(["--seed", str(seed * 1000 + i), "--shape", "pairs", "--programs", "14", "--dfs-p", "2",
                               "--dfs-cap", "12000", "--pct", "20", "--rand", "20"])
             else:
@@ -997,7 +1002,10 @@ def check_olc(pid, tier, seed):
     else:
         plans = []
         for i in range(NCPU):
-            if i % 4 == 0:
+            if i % 8 == 4:
+                plans.append(["--seed", str(seed * 1000 + i), "--shape", "nested", "--programs", "80", "--dfs-p", "3",
+                              "--dfs-cap", "60000", "--pct", "50", "--rand", "50"])
+            elif i % 4 == 0:
                 plans.append(["--seed", str(seed * 1000 + i), "--shape", "pairs", "--programs", "60", "--dfs-p", "3",
                               "--dfs-cap", "60000", "--pct", "50", "--rand", "50"])
             else:
